@@ -4,12 +4,14 @@ CONSTANTS MaxNodes = 3
  Aligns = {1, 4}
  BinLens = {3}
  Pats = {0}
+ NegOffs = {}
 INIT CInit
 NEXT CNext
 INVARIANT CfgBytesInPlace
 INVARIANT GivenOffsetsKept
 INVARIANT ReadingsCoincide
 INVARIANT AppendedIsBehind
+INVARIANT FrontRegionRefused
 INVARIANT ChildBytesInPlace
 INVARIANT PaddingOnlyAtEnd
 INVARIANT VerdictMonotone
